@@ -356,6 +356,34 @@ def check_range_close(rec, W):
                             rec.violation("C05/H5-%s-closed-%d-times" % (name, get()), f"{case}", case, monitor="H5")
 
 
+def check_text_bodies_in_ranges(rec, W):
+    """H2 for partial responses over *text* chunks: the range is counted in bytes of the encoded body, whatever mix of
+    ASCII and non-ASCII characters the chunks hold; Content-Length is the number of bytes sent."""
+    Response, create_environ = W.Response, W.create_environ
+    for chunks in (["abc", "def", "gh\u00e9", "", "jkl"], ["\u00e9\u00e9", "a", "\u2603b"], ["x", "\U0001f40d", "yz"], ["ascii", "only"]):
+        whole = "".join(chunks).encode()
+        for a, b in ((0, 9), (1, 3), (2, len(whole) - 1), (0, 0), (3, 5), (len(whole) - 2, len(whole) - 1)):
+            if a > b or b >= len(whole):
+                continue
+            for method in ("GET", "HEAD"):
+                env = create_environ("/", method=method, headers={"Range": f"bytes={a}-{b}"})
+                r = Response(list(chunks))
+                r.make_conditional(env, accept_ranges=True, complete_length=len(whole))
+                it, st, hd = r.get_wsgi_response(env)
+                data = b"".join(it)
+                if hasattr(it, "close"):
+                    it.close()
+                hdd = dict(hd)
+                case = {"part": "text-body-range", "chunks": chunks, "Range": f"bytes={a}-{b}", "method": method}
+                rec.case()
+                rec.nontrivial(("text-range", tuple(chunks), a, b, method))
+                rec.observe("ranges_over_text_chunks")
+                want = whole[a:b + 1]
+                if st[:3] != "206" or hdd.get("Content-Length") != str(len(want)) or (method == "GET" and data != want):
+                    rec.violation("C05/H2-content-length-mismatch", f"text chunks {chunks!r}, Range bytes={a}-{b} ({method}): {st}, Content-Length {hdd.get('Content-Length')!r}, body {data!r}; the encoded body's bytes {a}..{b} are {want!r}", case, monitor="H2")
+                    return
+
+
 def check_repeated_entries(rec, W):
     """History of the header list: the application (or an upstream response it was built from) left a header in the list
     more than once, spelled the way werkzeug itself spells it; then werkzeug computes the value anew (a new body, a
@@ -876,6 +904,7 @@ def run(shard, rec, rng):
         check_range_close(rec, W)
         check_reuse_and_faulty_callback(rec, W)
         check_repeated_entries(rec, W)
+        check_text_bodies_in_ranges(rec, W)
     if shard["index"] % 4 == 1:
         check_stream_histories(rec, W, rng, 400)
     if shard["index"] % 4 == 2:
